@@ -395,6 +395,40 @@ func c08Header(tier string, c c08Case, salt int64, res *core.Result) {
 			}
 		}
 	}
+	// two timeout headers in one request: a malformed value is ignored, it must not hide a valid one
+	for _, bad := range []string{"oops", "", "5", "-5S", "5.5S", "5X"} {
+		for _, order := range []string{"malformed-first", "valid-first"} {
+			id++
+			n++
+			tag := fmt.Sprintf("h%d", id)
+			kvs := []*goatorepo.KeyValue{{Key: svc.TagKey, Value: tag}}
+			if order == "malformed-first" {
+				kvs = append(kvs, &goatorepo.KeyValue{Key: "grpc-timeout", Value: bad}, &goatorepo.KeyValue{Key: "GRPC-Timeout", Value: "7M"})
+			} else {
+				kvs = append(kvs, &goatorepo.KeyValue{Key: "GRPC-Timeout", Value: "7M"}, &goatorepo.KeyValue{Key: "grpc-timeout", Value: bad})
+			}
+			rq := &wire.Rpc{Id: id, Header: &goatorepo.RequestHeader{Method: method, Source: "c0", Destination: "srv", Headers: kvs}}
+			if c.Kind == "unary" {
+				rq.Body = &goatorepo.Body{Data: body}
+			}
+			tSent := time.Now()
+			if err := l.A.Write(ctx, rq); err != nil {
+				break
+			}
+			if st, _ := settle(tier, func() bool { mu.Lock(); defer mu.Unlock(); return obs[tag] != nil }); st != "ok" {
+				res.Violate("request-with-timeout-header-not-served", "request with two timeout headers (%s, malformed %q) did not reach a handler", order, bad)
+				continue
+			}
+			mu.Lock()
+			o := obs[tag]
+			mu.Unlock()
+			res.Stat("header_requests_two_values", 1)
+			base := o.dl.Add(-7 * time.Minute)
+			if !o.hasDl || base.Before(tSent.Add(-time.Microsecond)) || base.After(o.t1.Add(time.Microsecond)) {
+				res.Violate("malformed-timeout-hides-valid-one/"+order, "headers grpc-timeout=%q and GRPC-Timeout=7M (%s): handler deadline present=%v, %v after the request was sent (want 7m)", bad, order, o.hasDl, o.dl.Sub(tSent))
+			}
+		}
+	}
 	res.Evals = int64(n)
 	res.Stat("header_requests", int64(n))
 	cancel()
